@@ -52,11 +52,16 @@ KINDS = {
     "sign": (1, lambda a: p.Call(mathf("copysign"), (1, a))),
     "if": (3, lambda c, a, b: p.If(p.Comparison(c, "<", 0), a, b)),
     "unknownf": (1, lambda a: p.Call(p.Variable("g"), (a,))),
+    # the same OBJECT in several operand positions (trees are DAGs in practice: s = sin(x); s*s)
+    "sq_shared": (1, lambda a: p.Product((a, a))), "prod3_shared": (2, lambda a, b: p.Product((a, b, a))),
+    "sum_shared": (1, lambda a: p.Sum((a, a))), "quot_shared": (2, lambda a, b: p.Quotient(p.Sum((a, b)), a)),
+    "pow_shared": (1, lambda a: p.Power(a, a)),
 }
 for _f in FUNCS1:
     KINDS[_f] = (1, (lambda f: lambda a: p.Call(mathf(f), (a,)))(_f))
 
-SMOOTH = ["sum2", "sum3", "prod2", "prod3", "quot", "pow", "pow2", "pow3", "powm1", "powh", "exp2", "cse"] + FUNCS1
+SMOOTH = (["sum2", "sum3", "prod2", "prod3", "quot", "pow", "pow2", "pow3", "powm1", "powh", "exp2", "cse"] + FUNCS1
+          + ["sq_shared", "prod3_shared", "sum_shared", "quot_shared", "pow_shared"])
 NONSMOOTH = {"fabs": "continuous", "copysign": "discontinuous", "sign": "discontinuous", "if": "discontinuous",
              "unknownf": "never"}
 LEAVES = ["x", "y", "v0", 2, 3, -1, 0.5]
@@ -245,6 +250,17 @@ def dual(d, env, menv, var):
             return Dual(v, 1 if d == var else 0)
         return Dual(d, 0)
     k, args = d[0], d[1:]
+    # the shared-object kinds mean what their unshared spelling means
+    if k == "sq_shared":
+        return D(("prod2", args[0], args[0]))
+    if k == "prod3_shared":
+        return D(("prod3", args[0], args[1], args[0]))
+    if k == "sum_shared":
+        return D(("sum2", args[0], args[0]))
+    if k == "quot_shared":
+        return D(("quot", ("sum2", args[0], args[1]), args[0]))
+    if k == "pow_shared":
+        return D(("pow", args[0], args[0]))
     if k in ("sum2", "sum3"):
         ds = [D(a) for a in args]
         return Dual(sum(x.val for x in ds), sum(x.der for x in ds))
